@@ -134,6 +134,15 @@ def configs(thorough, seed):
                  compute_eigenvalue_outer_product=pre)
         out.append({'model': model, 'dtype': 'f32', 'batch': 2, 'world': 1,
                     'seed': seed, 'kfac': k, 'history': [['train']] * 4})
+    # clip and learning rate given as functions of the step
+    for model, (m, pre) in itertools.product(['nbfirst', 'conv'], methods):
+        k = dict(damping=0.05, factor_decay=0.5,
+                 kl_clip=['cyc', [1e-3, 1e-5, 1e-1]],
+                 lr=['cyc', [0.1, 0.5, 0.02]], compute_method=m,
+                 compute_eigenvalue_outer_product=pre)
+        out.append({'model': model, 'dtype': 'f32', 'batch': 2, 'world': 1,
+                    'seed': seed, 'kfac': k, 'loss_mult': 4.0,
+                    'history': [['train']] * 4})
     # a step that preconditions with second-order data recomputed by
     # load_state_dict (fresh object built with OTHER constants): the system
     # must hold with the restored damping and factors
